@@ -1,9 +1,16 @@
 PROP = "C14"
-LEVEL = "exploration"
+LEVEL = "other"
 CONTRACT_MODULES = ["postprocessing"]
-DEDUCTIVE = []
-EXPLANATION = "bounded run-time layer only so far"
-LEVEL_TEXT = ("Bounded exploration: add_points_even / add_points_even_knees compared with the documented candidate rule (exact rationals) and the "
-              "running-minimum filter over curves, reductions, knee subsets, thresholds and both extremes settings. Not a proof.")
-LEVEL_NOTE = "bounded; threshold ties (w == 2tx, h == ty, integral w/(2tx)) skipped and counted"
-TECHNIQUE = "bounded run-time contract checking against an exact-rational oracle (stand-in)"
+DEDUCTIVE = [("postprocessing", "kneeliverse.postprocessing.add_points_even_knees"),
+             ("postprocessing", "kneeliverse.postprocessing.add_points_even")]
+EXPLANATION = ("Both functions proved, for all inputs (real arithmetic), to complete without an index or division error and to return valid, strictly "
+               "increasing (sorted, duplicate-free) indices whose heights are non-increasing, the result being filter_worst_knees (contract of C13) "
+               "of the sorted distinct values of the concatenation; every inserted index stays inside its segment (inc * number_points <= right - left). "
+               "Uses the mapping contract of C07 and assumed numpy contracts for concatenate / unique / sort / max / min. That the inserted points "
+               "are the documented ceil(w/(2tx)) evenly spaced ones is restated by the code itself; the set equality with the statement's candidate "
+               "set is decided by the bounded layer only.")
+LEVEL_TEXT = ("Deductive: completion, validity, strict order and running-minimum shape of the result of add_points_even / add_points_even_knees for all "
+              "inputs. Bounded: equality with the documented candidate rule (exact rationals) and the running-minimum filter over curves, reductions, "
+              "knee subsets, thresholds and both extremes settings (the bounded part is not a proof).")
+LEVEL_NOTE = "bounded part: threshold ties (w == 2tx, h == ty, integral w/(2tx)) skipped and counted"
+TECHNIQUE = "sidecar contracts + AST->VC generation discharged by z3 (completion, validity, order); bounded run-time contract checking against an exact-rational oracle for the candidate set"
